@@ -41,7 +41,7 @@ prop("C03",
 
 prop("C14",
      level="proof",
-     ground=[tables.c14_presentation_ground],
+     ground=[tables.c14_presentation_ground, tables.c14_temp_items_ground],
      budget={"quick": 240, "thorough": 900},
      assumptions=["the stored word enters through the assumed contract of the base Word read (any 16-bit word); the base read/write themselves are proved in C02",
                   "IEEE-754 binary64 with round-to-nearest-even for / * - + and truncation for int(): z3 FloatingPoint theory",
@@ -92,7 +92,8 @@ prop("C06",
 
 prop("C07",
      level="proof",
-     ground=[lexical.c07_lexical],
+     ground=[lexical.c07_lexical, tables.c04_regex_bounded],
+     bounded=["frame parsing of an addressed packet (GeckoPacketProtocolHandler._extract_packet_parts, re.search): bounded stand-in c04_packet_regex_bounded, identifiers incl. one containing '<'; shared with C04"],
      assumptions=["rely condition at every suspension point: other consumer tasks may remove the head (clearing the mark) and producers may append; only the unhandled consumer marks -- checked lexically",
                   "asyncio.Queue is modelled as a list (put_nowait appends, get_nowait removes the first element)",
                   "head-of-line clause: proved as progress per iteration of the discard loop (whatever was at the head when an iteration began is gone when it ends, for every datagram content; producers never clear the mark; every arrival is appended, any queue length); that every consumer task gets to run once per polling interval is ASSUMED (asyncio scheduling fairness is not modelled), so the bound in wall-clock polling intervals is conditional on it"],
